@@ -5,6 +5,8 @@ CONSTANTS
   RFroms = {"exact", "absent", "bareOf", "otherRes", "ownFull", "ownOther", "ownBare", "server", "stranger", "look", "look2"}
   Types = {"result", "error", "errorBare", "set"}
   OpenKinds = {"plain", "sm", "smr", "resumed"}
+  Cids = {"fresh", "empty", "dup"}
+  IdRule = "replace"
   MaxHist = 99
 ACTION_CONSTRAINT EmitBehaviour
 CHECK_DEADLOCK FALSE
